@@ -10,7 +10,7 @@
       W, depth                     totalWork and its legacy inverse
       oakW, oakT                   the decayed work estimate and its legacy inverse
       pt                           PoWTarget(): what the ID of the next header is compared with
-      prev                         the timestamps of the last <= 11 blocks, newest first (seconds since genesis)
+      prev                         the timestamps of the last <= 11 blocks, newest first (instants, see below)
       tip ]                        ID of the tip
    and a header is [parent, ts, nonce, id].
 
@@ -106,22 +106,47 @@ Low(x, k) == LET q == k \div 15  r == k % 15 IN
 CarryAt(x, y, k)  == Le(Pow2(k), Add(Low(x, k), Low(y, k)))
 BorrowAt(x, y, k) == Lt(Low(x, k), Low(y, k))
 
+\* ---- instants ------------------------------------------------------------------
+\* A timestamp is an INSTANT <<s, ns>>: s whole seconds since the genesis timestamp and 0 <= ns < 10^9
+\* nanoseconds (the resolution of the implementation's time type).  A header is ENCODED, and hashed into its ID,
+\* with the whole second of its instant only (Sec): that second is what the header carries as far as consensus is
+\* concerned.  A header stamped locally may hold any instant in memory, in any representation (time zone,
+\* monotonic clock reading): the verdict on a header and the state after it are functions of the state before and
+\* of the ENCODED header -- the sub-second part and the representation are inputs that must make no difference,
+\* whichever entry point (header or full block) is used.  The window therefore holds whole seconds; the median of
+\* an even count may still lie off the second (the mean of two).
+Giga == 1000000000
+IsInstant(a) == Len(a) = 2 /\ a[2] >= 0 /\ a[2] < Giga
+ILe(a, b) == a[1] < b[1] \/ (a[1] = b[1] /\ a[2] <= b[2])
+ILt(a, b) == a[1] < b[1] \/ (a[1] = b[1] /\ a[2] < b[2])
+IPlus(a, b) == LET n == a[2] + b[2] IN <<a[1] + b[1] + n \div Giga, n % Giga>>
+IPlusSec(a, k) == <<a[1] + k, a[2]>>
+\* floor(a / 2) at the resolution of one nanosecond
+IHalf(a) == LET n == (a[1] % 2) * Giga + a[2] IN <<a[1] \div 2, n \div 2>>
+\* the instant just before a
+IPred(a) == IF a[2] > 0 THEN <<a[1], a[2] - 1>> ELSE <<a[1] - 1, Giga - 1>>
+\* what the encoding of a header keeps of its timestamp
+Sec(a) == <<a[1], 0>>
+
 \* ---- header rule ---------------------------------------------------------------
 Range(q) == {q[i] : i \in DOMAIN q}
-\* k-th smallest element of a non-empty sequence of integers (order statistic)
+\* k-th smallest element of a non-empty sequence of instants (order statistic)
 Kth(q, k) == CHOOSE x \in Range(q) :
-               /\ Cardinality({i \in DOMAIN q : q[i] < x}) < k
-               /\ Cardinality({i \in DOMAIN q : q[i] <= x}) >= k
-\* twice the median of the window (the median of an even number of values is the mean of the middle two)
-Median2(q) == LET m == Len(q) IN
-              IF m % 2 = 1 THEN 2 * Kth(q, (m + 1) \div 2) ELSE Kth(q, m \div 2) + Kth(q, m \div 2 + 1)
-NotBeforeMedian(ts, q) == 2 * ts >= Median2(q)
+               /\ Cardinality({i \in DOMAIN q : ILt(q[i], x)}) < k
+               /\ Cardinality({i \in DOMAIN q : ILe(q[i], x)}) >= k
+\* the median of the window; the median of an even number of instants (chains shorter than eleven blocks) is the
+\* mean of the middle two at the resolution of one nanosecond (half a nanosecond is not an instant)
+Median(q) == LET m == Len(q) IN
+             IF m % 2 = 1 THEN Kth(q, (m + 1) \div 2) ELSE IHalf(IPlus(Kth(q, m \div 2), Kth(q, m \div 2 + 1)))
+NotBeforeMedian(ts, q) == ILe(Median(q), Sec(ts))
 Window(q) == IF Len(q) > 11 THEN SubSeq(q, 1, 11) ELSE q
-HeaderOK(n, s, hd) ==
+\* (med: the median of s.prev, passed in so that several headers can be judged against one state)
+HeaderOKm(n, s, hd, med) ==
   /\ hd.parent = s.tip
-  /\ NotBeforeMedian(hd.ts, s.prev)
+  /\ ILe(med, Sec(hd.ts))
   /\ ModSmall(hd.nonce, Factor(n, s.height + 1)) = 0
   /\ Le(hd.id, s.pt)
+HeaderOK(n, s, hd) == HeaderOKm(n, s, hd, Median(s.prev))
 
 \* ---- fork choice ----------------------------------------------------------------
 Heavier(s, t) == Lt(Add(t.W, DivSmall(t.D, 5)), s.W)
@@ -133,7 +158,7 @@ HeavierAsym(s, t) == ~(Heavier(s, t) /\ Heavier(t, s))
 ApplyHeader(n, s, hd, s2) ==
   /\ s2.height = s.height + 1
   /\ s2.tip = hd.id
-  /\ s2.prev = Window(<<hd.ts>> \o s.prev)
+  /\ s2.prev = Window(<<Sec(hd.ts)>> \o s.prev)
   /\ Clamp(n, s, s2) /\ NonZero(n, s2)
   /\ Inverse(n, s2)
   /\ WorkMono(n, s, s2) /\ WorkSum(n, s, s2)
